@@ -23,7 +23,7 @@ Proof.
     + destruct (ustr_eqb s0 a) eqn:B1; [|discriminate]. apply ustr_eqb_eq in B1 as ->. injection E1 as ->.
       destruct (ustr_eqb s b) eqn:A2.
       * apply ustr_eqb_eq in A2 as ->. injection E2 as ->. right; reflexivity.
-      * rewrite Hba in E2. discriminate.
+      * rewrite Hab in E2. discriminate.
 Qed.
 
 Lemma canon_atom x : natural x -> canon x = x.
@@ -79,3 +79,304 @@ Proof.
     apply (two_fields_lookup m' (U"threshold") (U"pubkeys") th (VList ks) eq_refl Hs'). rewrite Hl, !Hg, E1, E2. cbn [option_map canon].
     rewrite (canon_keylist ks F), (canon_atom th Hn). auto.
 Qed.
+
+(* the entries of a canonicalised dict are the canonicalised entries of the dict *)
+Lemma canon_values m : jdom (VDict m) = true ->
+  exists m', canon (VDict m) = VDict m'
+    /\ (forall kv', In kv' m' -> exists kv, In kv m /\ fst kv' = VStr (key_text (fst kv)) /\ snd kv' = canon (snd kv))
+    /\ (forall kv, In kv m -> In (VStr (key_text (fst kv)), canon (snd kv)) m').
+Proof.
+  intros Hd. rewrite canon_dict. eexists. split; [reflexivity|]. split.
+  - intros kv' Hin. apply in_map_iff in Hin as ([k x] & <- & Hin). unfold entries in Hin. apply (proj1 (In_sort_kv _ _)) in Hin.
+    apply in_map_iff in Hin as (kv & [= <- <-] & Hin). exists kv. auto.
+  - intros kv Hin. apply in_map_iff. exists (key_text (fst kv), snd kv). split; [reflexivity|].
+    unfold entries. apply In_sort_kv. apply in_map_iff. exists kv. auto.
+Qed.
+
+Lemma jdom_values m kv : jdom (VDict m) = true -> In kv m -> jdom (snd kv) = true /\ is_str (fst kv) = true.
+Proof.
+  intros Hd Hin. cbn [jdom] in Hd. apply andb_true_iff in Hd as [Hd _]. rewrite forallb_forall in Hd. specialize (Hd _ Hin).
+  apply andb_true_iff in Hd as [Hk Hx]. split; [exact Hx|]. destruct (fst kv); try discriminate. reflexivity.
+Qed.
+
+Lemma delegations_ok_canon v : jdom v = true -> (delegations_ok (canon v) <-> delegations_ok v).
+Proof.
+  intros Hd. destruct v; try (split; intros (m0 & E & _); cbn [canon] in E; discriminate).
+  destruct (canon_values m Hd) as (m' & Ec & H1 & H2). rewrite Ec. unfold delegations_ok. split.
+  - intros (m0 & [= <-] & F). exists m. split; [reflexivity|]. apply Forall_forall. intros kv Hin.
+    destruct (jdom_values m kv Hd Hin) as [Hx Hk]. split; [exact Hk|].
+    rewrite Forall_forall in F. destruct (F _ (H2 kv Hin)) as [_ Hok]. cbn [snd] in Hok. exact (proj1 (delegation_ok_canon _ Hx) Hok).
+  - intros (m0 & [= <-] & F). exists m'. split; [reflexivity|]. apply Forall_forall. intros kv' Hin.
+    destruct (H1 kv' Hin) as (kv & Hin0 & Ek & Ex). rewrite Ek, Ex. split; [reflexivity|].
+    rewrite Forall_forall in F. destruct (F _ Hin0) as [_ Hok]. destruct (jdom_values m kv Hd Hin0) as [Hx _].
+    exact (proj2 (delegation_ok_canon _ Hx) Hok).
+Qed.
+
+Lemma shapes_canon sm : jdom (VDict sm) = true ->
+  forall sm', canon (VDict sm) = VDict sm' ->
+  (Forall (fun kv => raw_shape (snd kv) \/ gpg_shape (snd kv)) sm' <-> Forall (fun kv => raw_shape (snd kv) \/ gpg_shape (snd kv)) sm).
+Proof.
+  intros Hd sm' Ec. destruct (canon_values sm Hd) as (m' & Ec' & H1 & H2). rewrite Ec in Ec'. injection Ec' as <-.
+  split; intros F; apply Forall_forall; rewrite Forall_forall in F.
+  - intros kv Hin. destruct (jdom_values sm kv Hd Hin) as [Hx _]. specialize (F _ (H2 kv Hin)). cbn [snd] in F.
+    destruct F as [F|F]; [left; exact (proj1 (raw_shape_canon _ Hx) F)|right; exact (proj1 (gpg_shape_canon _ Hx) F)].
+  - intros kv' Hin. destruct (H1 kv' Hin) as (kv & Hin0 & _ & Ex). rewrite Ex. destruct (jdom_values sm kv Hd Hin0) as [Hx _].
+    destruct (F _ Hin0) as [F0|F0]; [left; exact (proj2 (raw_shape_canon _ Hx) F0)|right; exact (proj2 (gpg_shape_canon _ Hx) F0)].
+Qed.
+
+Lemma canon_dict_inv x m' : canon x = VDict m' -> exists m, x = VDict m.
+Proof. destruct x; cbn [canon]; try discriminate; eauto. Qed.
+
+(* the documented schema is insensitive to storing and loading *)
+Theorem dm_ok_canon v : jdom v = true -> (dm_ok (canon v) <-> dm_ok v).
+Proof.
+  intros Hd.
+  destruct v; try (split; intros (m0 & ? & ? & ? & E & _); cbn [canon] in E; discriminate).
+  destruct (canon_dict_view m Hd) as (m' & Ec & Hl & Hs' & Hg & Hs). rewrite Ec.
+  (* the two directions share the analysis of the signed part; do it on lookups *)
+  assert (Hsigned : forall c, jdom (VDict c) = true -> forall c', canon (VDict c) = VDict c' ->
+            forall ty,
+            ((dget c' (U"type") = Some (VStr ty) /\ In ty Params.supported_dm_types
+              /\ has_field c' (U"metadata_spec_version") (fun x => is_str x = true)
+              /\ has_field c' (U"delegations") delegations_ok /\ has_field c' (U"expiration") utc_str
+              /\ (dhas c' (U"timestamp") = true \/ dhas c' (U"version") = true) /\ (ty = U"root" -> dhas c' (U"version") = true)
+              /\ if_field c' (U"timestamp") utc_str /\ if_field c' (U"version") natural)
+             <->
+             (dget c (U"type") = Some (VStr ty) /\ In ty Params.supported_dm_types
+              /\ has_field c (U"metadata_spec_version") (fun x => is_str x = true)
+              /\ has_field c (U"delegations") delegations_ok /\ has_field c (U"expiration") utc_str
+              /\ (dhas c (U"timestamp") = true \/ dhas c (U"version") = true) /\ (ty = U"root" -> dhas c (U"version") = true)
+              /\ if_field c (U"timestamp") utc_str /\ if_field c (U"version") natural))).
+  { intros c Hc c' Ecc ty. destruct (canon_dict_view c Hc) as (c'' & Ec2 & _ & _ & Hgc & _). rewrite Ecc in Ec2. injection Ec2 as <-.
+    assert (Hhas : forall k, dhas c' k = dhas c k) by (intros k; unfold dhas; rewrite Hgc; destruct (dget c k); reflexivity).
+    assert (Hfield : forall k (P : pv -> Prop), (forall x, jdom x = true -> (P (canon x) <-> P x)) -> (has_field c' k P <-> has_field c k P)).
+    { intros k P HP. unfold has_field. rewrite Hgc. split.
+      - intros (x' & E & Hx). destruct (dget c k) as [x|] eqn:G; cbn [option_map] in E; try discriminate. injection E as <-.
+        exists x. split; [reflexivity|]. apply HP; [exact (jdom_dget c k x Hc G)|exact Hx].
+      - intros (x & E & Hx). rewrite E. exists (canon x). split; [reflexivity|]. apply HP; [exact (jdom_dget c k x Hc E)|exact Hx]. }
+    assert (Hif : forall k (P : pv -> Prop), (forall x, jdom x = true -> (P (canon x) <-> P x)) -> (if_field c' k P <-> if_field c k P)).
+    { intros k P HP. unfold if_field. rewrite Hgc. split.
+      - intros H x G. apply HP; [exact (jdom_dget c k x Hc G)|]. apply H. rewrite G. reflexivity.
+      - intros H x' E. destruct (dget c k) as [x|] eqn:G; cbn [option_map] in E; try discriminate. injection E as <-.
+        apply HP; [exact (jdom_dget c k x Hc G)|]. apply H. reflexivity. }
+    assert (Hty : dget c' (U"type") = Some (VStr ty) <-> dget c (U"type") = Some (VStr ty)).
+    { rewrite Hgc. destruct (dget c (U"type")) as [x|]; cbn [option_map]; split; try discriminate.
+      - intros [= H]. apply canon_str in H as ->. reflexivity.
+      - intros [= ->]. reflexivity. }
+    rewrite Hty, !Hhas.
+    rewrite (Hfield (U"metadata_spec_version") (fun x => is_str x = true)) by (intros x _; rewrite is_str_canon; reflexivity).
+    rewrite (Hfield (U"delegations") delegations_ok) by (intros x Hx; apply delegations_ok_canon; exact Hx).
+    rewrite (Hfield (U"expiration") utc_str) by (intros x _; apply utc_str_canon).
+    rewrite (Hif (U"timestamp") utc_str) by (intros x _; apply utc_str_canon).
+    rewrite (Hif (U"version") natural) by (intros x _; apply natural_canon).
+    reflexivity. }
+  unfold dm_ok. split.
+  - intros (m0 & sm' & c' & ty & [= <-] & Htf & Hty & Fs & Hrest).
+    apply (two_fields_lookup m' (U"signatures") (U"signed") _ _ eq_refl Hs') in Htf as (L & E1 & E2). rewrite Hg in E1, E2.
+    destruct (dget m (U"signatures")) as [s0|] eqn:G1; cbn [option_map] in E1; try discriminate. injection E1 as E1.
+    destruct (dget m (U"signed")) as [x0|] eqn:G2; cbn [option_map] in E2; try discriminate. injection E2 as E2.
+    destruct (canon_dict_inv _ _ E1) as (sm & ->). destruct (canon_dict_inv _ _ E2) as (c & ->).
+    pose proof (jdom_dget m _ _ Hd G1) as Hsm. pose proof (jdom_dget m _ _ Hd G2) as Hc.
+    exists m, sm, c, ty. split; [reflexivity|].
+    split; [apply (two_fields_lookup m (U"signatures") (U"signed") _ _ eq_refl Hs); rewrite <- Hl; auto|].
+    split; [rewrite <- (type_in_canon (VDict c)) by exact Hc; rewrite E2; exact Hty|].
+    split; [apply (shapes_canon sm Hsm sm' E1); exact Fs|].
+    apply (Hsigned c Hc c' E2 ty). exact Hrest.
+  - intros (m0 & sm & c & ty & [= <-] & Htf & Hty & Fs & Hrest).
+    apply (two_fields_lookup m (U"signatures") (U"signed") _ _ eq_refl Hs) in Htf as (L & E1 & E2).
+    pose proof (jdom_dget m _ _ Hd E1) as Hsm. pose proof (jdom_dget m _ _ Hd E2) as Hc.
+    destruct (canon_dict_view sm Hsm) as (sm' & Ecs & _). destruct (canon_dict_view c Hc) as (c' & Ecc & _).
+    exists m', sm', c', ty. split; [reflexivity|].
+    split; [apply (two_fields_lookup m' (U"signatures") (U"signed") _ _ eq_refl Hs'); rewrite Hl, !Hg, E1, E2; cbn [option_map]; rewrite Ecs, Ecc; auto|].
+    split; [rewrite <- Ecc; rewrite type_in_canon by exact Hc; exact Hty|].
+    split; [apply (shapes_canon sm Hsm sm' Ecs); exact Fs|].
+    apply (Hsigned c Hc c' Ecc ty). exact Hrest.
+Qed.
+
+Theorem cdm_canon v : jdom v = true -> (cdm (canon v) = Ok tt <-> cdm v = Ok tt).
+Proof. intros Hd. rewrite !checker_iff_schema. apply dm_ok_canon; exact Hd. Qed.
+
+(* ---- what well-formed delegating metadata looks like from the lookups the verifiers make *)
+Lemma dm_ok_parts t : dm_ok t ->
+  exists m c dl, t = VDict m /\ dget m (U"signed") = Some (VDict c) /\ dget c (U"delegations") = Some (VDict dl)
+    /\ Forall (fun kd => is_str (fst kd) = true /\ delegation_ok (snd kd)) dl.
+Proof.
+  intros (m & sm & c & ty & -> & Htf & _ & _ & _ & _ & _ & (dlv & Edl & (dl & -> & F)) & _).
+  destruct (two_fields_dget m (U"signatures") (U"signed") _ _ eq_refl Htf) as [_ E2]. eauto 8.
+Qed.
+
+Lemma delegation_parts d : delegation_ok d ->
+  exists dm th ks, d = VDict dm /\ dget dm (U"threshold") = Some th /\ dget dm (U"pubkeys") = Some (VList ks)
+    /\ canon th = th /\ canon (VList ks) = VList ks.
+Proof.
+  intros (dm & th & ks & -> & Htf & F & _ & Hn).
+  destruct (two_fields_dget dm (U"threshold") (U"pubkeys") _ _ eq_refl Htf) as [E1 E2].
+  exists dm, th, ks. repeat split; auto. - apply canon_atom; exact Hn. - cbn [canon]. rewrite (canon_keylist ks F). reflexivity.
+Qed.
+
+Lemma py_in_str_canon k dl : jdom (VDict dl) = true -> py_in_str k (canon (VDict dl)) = py_in_str k (VDict dl).
+Proof.
+  intros Hd. destruct (canon_dict_view dl Hd) as (dl' & Ec & _ & _ & Hg & _). rewrite Ec. cbn [py_in_str]. unfold dhas. rewrite Hg.
+  destruct (dget dl k); reflexivity.
+Qed.
+
+Section Verdicts.
+  Variable ed_verify : bytes -> bytes -> bytes -> bool.
+  Variable sha256 : bytes -> bytes.
+  Notation vsig := (verify_signable ed_verify sha256).
+  Notation vdel := (verify_delegation ed_verify sha256).
+  Notation vroot := (verify_root ed_verify sha256).
+
+  (* the rule read from well-formed trusted metadata is the same before and after storing it *)
+  Lemma role_rule_canon t nm : jdom t = true -> dm_ok t -> role_rule (canon t) nm = role_rule t nm.
+  Proof.
+    intros Hd Hok. destruct (dm_ok_parts t Hok) as (m & c & dl & -> & E1 & E2 & F).
+    pose proof (jdom_dget m _ _ Hd E1) as Hc. pose proof (jdom_dget c _ _ Hc E2) as Hdl.
+    unfold role_rule. rewrite (subscript_canon (VDict m) (U"signed") Hd eq_refl). cbn [subscript]. rewrite E1. cbn [bind].
+    rewrite (subscript_canon (VDict c) (U"delegations") Hc eq_refl). cbn [subscript]. rewrite E2. cbn [bind].
+    rewrite (py_in_str_canon nm dl Hdl). cbn [py_in_str bind]. unfold dhas.
+    destruct (dget dl nm) as [d|] eqn:E3; cbn [negb]; [|reflexivity].
+    rewrite (subscript_canon (VDict dl) nm Hdl eq_refl). cbn [subscript]. rewrite E3. cbn [bind].
+    pose proof (jdom_dget dl _ _ Hdl E3) as Hdj.
+    rewrite Forall_forall in F. destruct (F _ (dget_Some_In _ _ _ E3)) as [_ Hdok]. cbn [snd] in Hdok.
+    destruct (delegation_parts d Hdok) as (dm & th & ks & -> & G1 & G2 & C1 & C2).
+    rewrite (subscript_canon (VDict dm) (U"pubkeys") Hdj eq_refl), (subscript_canon (VDict dm) (U"threshold") Hdj eq_refl).
+    cbn [subscript]. rewrite G1, G2. cbn [bind]. rewrite C1, C2. reflexivity.
+  Qed.
+
+  Lemma is_signable_canon_iff s : jdom s = true -> is_signable (canon s) = is_signable s.
+  Proof.
+    intros Hd. destruct (is_signable s) eqn:Es; [apply is_signable_canon; auto|].
+    destruct (is_signable (canon s)) eqn:Ec; [|reflexivity]. exfalso.
+    apply is_signable_iff in Ec as (m' & sm' & x' & Ec & Htf' & Hty').
+    destruct s; try (cbn [canon] in Ec; discriminate).
+    destruct (canon_dict_view m Hd) as (m'' & Ec' & Hl & Hs' & Hg & Hs). rewrite Ec' in Ec. injection Ec as ->.
+    apply (two_fields_lookup m' (U"signatures") (U"signed") _ _ eq_refl Hs') in Htf' as (L & G1 & G2). rewrite Hg in G1, G2.
+    destruct (dget m (U"signatures")) as [s0|] eqn:E1; cbn [option_map] in G1; try discriminate. injection G1 as G1.
+    destruct (dget m (U"signed")) as [x0|] eqn:E2; cbn [option_map] in G2; try discriminate. injection G2 as G2.
+    destruct (canon_dict_inv _ _ G1) as (sm & ->).
+    assert (is_signable (VDict m) = true); [|congruence].
+    apply is_signable_iff. exists m, sm, x0. split; [reflexivity|].
+    split; [apply (two_fields_lookup m (U"signatures") (U"signed") _ _ eq_refl Hs); rewrite <- Hl; auto|].
+    rewrite <- G2 in Hty'. rewrite type_in_canon in Hty'; [exact Hty'|exact (jdom_dget m _ _ Hd E2)].
+  Qed.
+
+  Lemma key_is_canon k v : key_is k (canon v) = key_is k v.
+  Proof. destruct v; reflexivity. Qed.
+
+  (* the payload-type test gives the same answer on the stored object, wherever the model gives one *)
+  Lemma type_check_canon u nm : jdom u = true -> is_signable u = true ->
+    type_check u nm <> Unmodelled -> type_check (canon u) nm <> Unmodelled ->
+    (type_check (canon u) nm = Ok tt <-> type_check u nm = Ok tt).
+  Proof.
+    intros Hd Hs. apply is_signable_iff in Hs as (m & sm & sd & -> & Htf & Hty).
+    destruct (two_fields_dget m (U"signatures") (U"signed") _ _ eq_refl Htf) as [E1 E2].
+    pose proof (jdom_dget m _ _ Hd E2) as Hsd.
+    set (so := VDict [(VStr (U"signatures"), VDict []); (VStr (U"signed"), sd)]).
+    assert (Hso : jdom so = true) by (unfold so; cbn [jdom forallb fst snd map]; rewrite Hsd; reflexivity).
+    assert (Eso : signed_only (VDict m) = Ok so) by (unfold signed_only; cbn [subscript]; rewrite E2; reflexivity).
+    assert (Eso' : signed_only (canon (VDict m)) = Ok (canon so)).
+    { unfold signed_only. rewrite (subscript_canon (VDict m) (U"signed") Hd eq_refl). cbn [subscript]. rewrite E2. cbn [bind].
+      unfold so. rewrite (canon_envelope _ [] sd (or_introl eq_refl)). reflexivity. }
+    unfold type_check. rewrite Eso, Eso'. cbn [bind].
+    pose proof (cdm_canon so Hso) as Hiff. pose proof (fam_cdm so) as F1. pose proof (fam_cdm (canon so)) as F2.
+    rewrite (subscript_canon (VDict m) (U"signed") Hd eq_refl). cbn [subscript]. rewrite E2. cbn [bind].
+    destruct (cdm so) as [[]|e|] eqn:C1.
+    - rewrite (proj2 Hiff eq_refl). intros _ _.
+      apply checker_iff_schema in C1 as (m0 & sm0 & c & ty & [= <-] & Htf0 & _).
+      destruct (two_fields_dget _ (U"signatures") (U"signed") _ _ eq_refl Htf0) as [_ G2]. cbn in G2. injection G2 as ->.
+      rewrite (subscript_canon (VDict c) (U"type") Hsd eq_refl). cbn [subscript].
+      destruct (dget c (U"type")) as [tyv|]; cbn [bind]; [|split; discriminate].
+      unfold str_ne. rewrite key_is_canon. reflexivity.
+    - cbn [fam] in F1. destruct (cdm (canon so)) as [[]|e'|] eqn:C2.
+      + pose proof (proj1 Hiff eq_refl). discriminate.
+      + cbn [fam] in F2. intros _ _. destruct e; try discriminate; destruct e'; try discriminate; split; reflexivity.
+      + intros _ H. exfalso. apply H. reflexivity.
+    - intros H. exfalso. apply H. reflexivity.
+  Qed.
+
+  (* ---- verify_delegation gives the same verdict on what was stored and loaded as on the objects in memory *)
+  Theorem delegation_verdict_persists name u t gpg :
+    jdom u = true -> jdom t = true ->
+    (forall sm, subscript u (U"signatures") = Ok (VDict sm) -> py_truth gpg = true -> Forall (fun kv => entry_small (snd kv)) sm) ->
+    vdel name u t gpg <> Unmodelled -> vdel name (canon u) (canon t) gpg <> Unmodelled ->
+    (vdel name (canon u) (canon t) gpg = Ok tt <-> vdel name u t gpg = Ok tt).
+  Proof.
+    intros Hu Ht Hsmall D1 D2.
+    assert (Hdec : forall nm u' t', gpg_flag_ok gpg = true -> cdm t' = Ok tt -> is_signable u' = true ->
+                     vdel (VStr nm) u' t' gpg <> Unmodelled -> type_check u' nm <> Unmodelled).
+    { intros nm u' t' G C S H E. apply H. rewrite verify_delegation_unfold, G, C. cbn [negb bind]. unfold checkformat_signable. rewrite S. cbn [bind].
+      rewrite E. reflexivity. }
+    assert (Hsigs : is_signable u = true -> exists sm, subscript u (U"signatures") = Ok (VDict sm)).
+    { intros S. apply is_signable_iff in S as (m & sm & x & -> & Htf & _).
+      destruct (two_fields_dget m (U"signatures") (U"signed") _ _ eq_refl Htf) as [E1 _]. exists sm. cbn [subscript]. rewrite E1. reflexivity. }
+    rewrite !verify_delegation_iff. split.
+    - intros (nm & keys & th & -> & Eg & Et' & Es' & Ety' & Er' & Hv').
+      pose proof (proj1 (cdm_canon t Ht) Et') as Et. pose proof (proj1 (checker_iff_schema t) Et) as Hok.
+      pose proof Es' as Es. rewrite (is_signable_canon_iff u Hu) in Es.
+      rewrite (role_rule_canon t nm Ht Hok) in Er'.
+      destruct (Hsigs Es) as (sm & Esm).
+      exists nm, keys, th. repeat split; auto.
+      + apply (type_check_canon u nm Hu Es); auto. * apply (Hdec nm u t); auto. * apply (Hdec nm (canon u) (canon t)); auto.
+      + apply (persist_keeps_verdict ed_verify sha256 u keys th gpg sm Hu Esm (Hsmall sm Esm)). exact Hv'.
+    - intros (nm & keys & th & -> & Eg & Et & Es & Ety & Er & Hv).
+      pose proof (proj2 (cdm_canon t Ht) Et) as Et'. pose proof (proj1 (checker_iff_schema t) Et) as Hok.
+      pose proof Es as Es'. rewrite <- (is_signable_canon_iff u Hu) in Es'.
+      destruct (Hsigs Es) as (sm & Esm).
+      exists nm, keys, th. repeat split; auto.
+      + apply (type_check_canon u nm Hu Es); auto. * apply (Hdec nm u t); auto. * apply (Hdec nm (canon u) (canon t)); auto.
+      + rewrite (role_rule_canon t nm Ht Hok). exact Er.
+      + apply (persist_keeps_verdict ed_verify sha256 u keys th gpg sm Hu Esm (Hsmall sm Esm)). exact Hv.
+  Qed.
+
+  (* ---- and so does verify_root *)
+  Lemma view_canon t : jdom t = true -> dm_ok t -> view (canon t) = view t.
+  Proof.
+    intros Hd Hok. destruct (dm_ok_parts t Hok) as (m & c & dl & -> & E1 & E2 & F).
+    destruct Hok as (m0 & sm0 & c0 & ty & [= <-] & Htf & _ & _ & Ety & _ & _ & _ & _ & _ & _ & _ & Hver).
+    destruct (two_fields_dget m (U"signatures") (U"signed") _ _ eq_refl Htf) as [_ E1']. rewrite E1 in E1'. injection E1' as <-.
+    pose proof (jdom_dget m _ _ Hd E1) as Hc. pose proof (jdom_dget c _ _ Hc E2) as Hdl.
+    unfold view. rewrite (subscript_canon (VDict m) (U"signed") Hd eq_refl). cbn [subscript]. rewrite E1. cbn [bind].
+    rewrite (subscript_canon (VDict c) (U"type") Hc eq_refl), (subscript_canon (VDict c) (U"delegations") Hc eq_refl),
+            (subscript_canon (VDict c) (U"version") Hc eq_refl).
+    cbn [subscript]. rewrite Ety, E2. cbn [bind canon].
+    change (VDict (map (fun kv => (VStr (fst kv), snd kv)) (sort_kv ((fix go (m1 : list (pv * pv)) : list (ustr * pv) := match m1 with [] => [] | (k, x) :: r => (key_text k, canon x) :: go r end) dl))))
+      with (canon (VDict dl)).
+    rewrite (py_in_str_canon (U"root") dl Hdl). cbn [py_in_str bind]. unfold dhas.
+    destruct (dget dl (U"root")) as [d|] eqn:E3; cbn [negb]; [|reflexivity].
+    rewrite (subscript_canon (VDict dl) (U"root") Hdl eq_refl). cbn [subscript]. rewrite E3. cbn [bind].
+    pose proof (jdom_dget dl _ _ Hdl E3) as Hdj.
+    rewrite Forall_forall in F. destruct (F _ (dget_Some_In _ _ _ E3)) as [_ Hdok]. cbn [snd] in Hdok.
+    destruct (delegation_parts d Hdok) as (dm & th & ks & -> & G1 & G2 & C1 & C2).
+    rewrite (subscript_canon (VDict dm) (U"pubkeys") Hdj eq_refl), (subscript_canon (VDict dm) (U"threshold") Hdj eq_refl).
+    cbn [subscript]. rewrite G1, G2. cbn [bind]. rewrite C1, C2.
+    destruct (dget c (U"version")) as [v|] eqn:E4; cbn [bind]; [|reflexivity].
+    rewrite (canon_atom v (Hver v E4)). reflexivity.
+  Qed.
+
+  Theorem root_verdict_persists t u :
+    jdom t = true -> jdom u = true ->
+    (forall sm, subscript u (U"signatures") = Ok (VDict sm) -> Forall (fun kv => entry_small (snd kv)) sm) ->
+    (vroot (canon t) (canon u) = Ok tt <-> vroot t u = Ok tt).
+  Proof.
+    intros Ht Hu Hsmall. rewrite !verify_root_iff.
+    assert (Hsigs : dm_ok u -> exists sm, subscript u (U"signatures") = Ok (VDict sm)).
+    { intros (m & sm & c & ty & -> & Htf & _).
+      destruct (two_fields_dget m (U"signatures") (U"signed") _ _ eq_refl Htf) as [E1 _]. exists sm. cbn [subscript]. rewrite E1. reflexivity. }
+    assert (Hv : forall sm K th, subscript u (U"signatures") = Ok (VDict sm) ->
+              (vsig (canon u) K th (VBool true) = Ok tt <-> vsig u K th (VBool true) = Ok tt)).
+    { intros sm K th Esm. apply (persist_keeps_verdict ed_verify sha256 u K th (VBool true) sm Hu Esm). intros _. exact (Hsmall sm Esm). }
+    unfold Link. split.
+    - intros (Et' & Eu' & tv & uv & tz & Vt & Vu & T1 & T2 & I1 & I2 & V1 & V2).
+      pose proof (proj1 (cdm_canon t Ht) Et') as Et. pose proof (proj1 (cdm_canon u Hu) Eu') as Eu.
+      pose proof (proj1 (checker_iff_schema t) Et) as Hokt. pose proof (proj1 (checker_iff_schema u) Eu) as Hoku.
+      rewrite (view_canon t Ht Hokt) in Vt. rewrite (view_canon u Hu Hoku) in Vu.
+      destruct (Hsigs Hoku) as (sm & Esm).
+      split; [exact Et|]. split; [exact Eu|]. exists tv, uv, tz. repeat split; auto; apply (Hv sm _ _ Esm); assumption.
+    - intros (Et & Eu & tv & uv & tz & Vt & Vu & T1 & T2 & I1 & I2 & V1 & V2).
+      pose proof (proj1 (checker_iff_schema t) Et) as Hokt. pose proof (proj1 (checker_iff_schema u) Eu) as Hoku.
+      destruct (Hsigs Hoku) as (sm & Esm).
+      split; [apply cdm_canon; assumption|]. split; [apply cdm_canon; assumption|]. exists tv, uv, tz.
+      rewrite (view_canon t Ht Hokt), (view_canon u Hu Hoku). repeat split; auto; apply (Hv sm _ _ Esm); assumption.
+  Qed.
+End Verdicts.
